@@ -224,6 +224,20 @@ def link(out, objs, libs=(), wraps=(), fuzz=False, extra=()):
         cmd.append("-Wl,--wrap=" + w)
     cmd += list(extra) + list(libs)
     r = sh(cmd, capture_output=True, text=True)
+    if r.returncode != 0 and "undefined reference" in r.stderr and not fuzz:
+        # The harness links a hand-picked set of library files.  A change to the library may make one of them need another library file
+        # (say, a wipe through insecure_memzero): retry with an archive of the whole library behind the object list, from which the
+        # linker takes only the members that resolve something.
+        m = re.search(r"/obj/(asan|o2|pic|o2pic)/", " ".join(objs))
+        if m:
+            try:
+                allobjs = build_lib(m.group(1))
+                ar = os.path.join(BUILD, "obj", "whole-%s-%d.a" % (m.group(1), os.getpid()))
+                if sh(["ar", "rcs", ar] + sorted(allobjs.values()), capture_output=True, text=True).returncode == 0:
+                    r = sh(cmd + [ar] + list(libs), capture_output=True, text=True)
+                    os.unlink(ar)
+            except SystemExit:
+                pass
     if r.returncode != 0:
         sys.stderr.write("LINK FAILED: %s\n%s\n" % (out, r.stderr))
         try:
